@@ -16,6 +16,10 @@ man = {
     "engines": [
         {"name": "rebind-symex", "path": "engine/", "serves_properties": sorted(CHECKS),
          "kind_free_text": "verification-condition generation by symbolic execution of the real code objects (re-bound over shim namespaces), z3 5.1 + cvc5 back ends; sidecar contracts in contracts/; bounded native stand-ins labelled as such"},
+        {"name": "symbolic-shape arrays", "path": "engine/shape.py", "serves_properties": ["C03", "C04", "C05", "C06", "C07", "C08"],
+         "kind_free_text": "arrays whose dimensions are composites of atomic axes with polynomial sizes; tile / repeat / reshape / concatenate / slicing as structural operations; the real getBH_level2 chain runs on them for all path lengths and pixel counts (checks/l2sym.py); cross-checked against NumPy on every run"},
+        {"name": "row-generic shim + typing calculi", "path": "engine/rowgen.py", "serves_properties": ["C02", "C05", "C06", "C08", "C12", "C15"],
+         "kind_free_text": "one generic row of a batch with mask tags and batch-global any/all symbols; dimension calculus, linearity typing, definedness calculus over the resulting term DAGs; exact rational normal form (engine/ratpoly.py) where NRA solvers do not finish"},
     ],
     "checks": [],
     "not_applicable": [],
